@@ -149,23 +149,24 @@ class _SolveIVP(torch.autograd.Function):
 
         def pfunc2(t, y, tensor_params):
             if not grad_enabled:
-                # if graph is not constructed, then use the default tensor_params
+                # if graph is not constructed, then use detached copies of the tensor params,
+                # one per parameter position (a tensor passed in two positions must get the
+                # gradient of each position, not the total in both)
+                tensor_params_copy = [p.detach().requires_grad_() for p in tensor_params]
                 ycopy = y.detach().requires_grad_()  # [yi.detach().requires_grad_() for yi in y]
                 tcopy = t.detach().requires_grad_()
-                f = pfcn(tcopy, ycopy, *params)
-                return f, tcopy, ycopy, tensor_params
             else:
                 # if graph is constructed, then use the clone of the tensor params
                 # so that infinite loop of backward can be avoided
                 tensor_params_copy = [p.clone().requires_grad_() for p in tensor_params]
                 ycopy = y.clone().requires_grad_()
                 tcopy = t.clone().requires_grad_()
-                allparams_copy = param_sep.reconstruct_params(tensor_params_copy)
-                params_copy = allparams_copy[:nparams]
-                objparams_copy = allparams_copy[nparams:]
-                with pfcn.useobjparams(objparams_copy):
-                    f = pfcn(tcopy, ycopy, *params_copy)
-                return f, tcopy, ycopy, tensor_params_copy
+            allparams_copy = param_sep.reconstruct_params(tensor_params_copy)
+            params_copy = allparams_copy[:nparams]
+            objparams_copy = allparams_copy[nparams:]
+            with pfcn.useobjparams(objparams_copy):
+                f = pfcn(tcopy, ycopy, *params_copy)
+            return f, tcopy, ycopy, tensor_params_copy
 
         # slices and indices definitions on the augmented states
         y_index = 0
